@@ -212,7 +212,7 @@ def _lib_cases(rng, M, voc, lib_names, n_other, ns=""):
     keep = set(lib_names)
     sub = copy.copy(voc)
     sub.names = [n for n in voc.names if n in keep]
-    cases = M.structured_cases(rng, sub, ns, None)
+    cases = M.structured_cases(rng, sub, ns, 5)      # 5 of the 12 (case, suffix kind) combinations per form
     rest = [n for n in voc.names if n not in keep]
     sub2 = copy.copy(voc)
     sub2.names = rng.sample(rest, min(len(rest), n_other))
@@ -264,7 +264,7 @@ def schema_jobs(rng, tier, M, vocs, scratch):
         extra = [t["long"] for t in X.schema_for_use(b, A)["tags"] if "inLibrary" in t["attrs"]]
         names = vocs[a].names + extra
         voc = M.Vocab(a + "+" + b, names, True)
-        cases = _lib_cases(rng, M, voc, rng.sample(extra, min(len(extra), 50 if quick else 250)), 60, ns)
+        cases = _lib_cases(rng, M, voc, rng.sample(extra, min(len(extra), 30 if quick else 250)), 60, ns)
         texts = [c["text"] for c in cases]
         mk(f"merge-{pre}:{a}+{b}",
            [("file", "a", A[a]["file"], pre), ("resolve", "a", "pre-a", texts),
@@ -335,7 +335,9 @@ def run_schema_histories(res, rng, tier, M, vocs, scratch, exe):
                     res.report("history-spelling-identified", dict(pay0, step=label, text=t), "; ".join(bad[:3]))
                     dis += 1
                     break
-            # (c) the model on the vocabulary the object has at this step
+            # (c) the model on the vocabulary the object has at this step (post-base must equal pre-base, see above)
+            if label == "post-base":
+                continue
             sessions.append((voc.names, s.get("ns", ""), texts, False))
             smap.append((si, label))
     if exe is not None and sessions:
